@@ -2,7 +2,7 @@
 import torch
 
 from .envs import SPECS, py_instance
-from .episode import run_episode
+from .episode import run_episode_torchrl, run_episode
 from .oracles import JUDGES
 
 # constraints that are exact on lattice instances (k/8 demands and prizes): tolerance 0 there
@@ -16,6 +16,21 @@ def tau_for(case):
     if name == "cvrptw" and not (cfg.get("scale") and case["src"] == "gen"):
         return 2e-3  # unscaled times/distances are O(100)
     return 1e-4
+
+
+# MCP reports `done` with shape [B, B] (broadcast of i [B] against n_sets_to_choose [B, 1]); TorchRL-mode stepping
+# reshapes done to [B, 1] and cannot digest it on the pinned tree - MCP is driven in the default mode only
+NO_TORCHRL = ("mcp",)
+
+
+def torchrl_env(spec, cfg):
+    from .envs import cached_env
+
+    def mk(c):
+        e = spec.build(c)
+        e._torchrl_mode = True  # same effect as the constructor argument `_torchrl_mode=True`
+        return e
+    return cached_env(spec.name + "|torchrl", cfg, mk)
 
 
 def play(case, ctx, keep_states=False, cap_factor=1):
@@ -35,7 +50,16 @@ def play(case, ctx, keep_states=False, cap_factor=1):
     streams = [rows[b % len(rows)]["stream"] for b in range(B)]
     insts = [py_instance(case["env"], inst[b]) for b in range(B)]
     cap = max(spec.bound(case["cfg"], insts[b]) for b in range(B)) * cap_factor + 3
-    ep = ctx.guard(run_episode, env, inst, modes, streams, cap, keep_states, what=f"episode|{case['env']}")
+    stepping = case.get("stepping", "default")
+    if stepping != "default" and case["env"] not in NO_TORCHRL:
+        # TorchRL stepping mode (env.step(td) writes td["next"] and leaves the state in td untouched), optionally with
+        # a second mask-admitted action evaluated from the same state and discarded before every committed step
+        env = ctx.guard(torchrl_env, spec, case["cfg"], what=f"build_env|{case['env']}")
+        ctx.event(f"stepping:{stepping}")
+        ep = ctx.guard(run_episode_torchrl, env, inst, modes, streams, cap, keep_states, stepping == "torchrl_probe",
+                       what=f"episode_{stepping}|{case['env']}")
+    else:
+        ep = ctx.guard(run_episode, env, inst, modes, streams, cap, keep_states, what=f"episode|{case['env']}")
     return spec, env, inst, insts, ep
 
 
